@@ -11,10 +11,13 @@ It(h, rb, n) == [h |-> h, r |-> Str(rb), who |-> Num(n)]
 HK == Cmp("=", Path("h"), Val(":h"))
 Q(hv, fwd) == QueryOp("c1", T1, NoIndex, HK, NoFilter, <<>>, One(":h", hv), fwd)
 QR(hv, op, rb) == QueryOp("c1", T1, NoIndex, And(HK, Cmp(op, Path("r"), Val(":r"))), NoFilter, <<>>, [n \in {":h", ":r"} |-> IF n = ":h" THEN hv ELSE Str(rb)], TRUE)
+\* the request with an ExclusiveStartKey that is present but empty (the empty LastEvaluatedKey of the last page fed back)
+EE(q) == [q EXCEPT !.esk = [some |-> TRUE, k |-> <<>>]]
 TableTrace(c) ==
   << AddTable("c1", T1, "h", "r"), Put(T1, It(P1, <<49>>, 1)), Put(T1, It(P1, <<114>>, 2)), Put(T1, It(P1, <<122>>, 3)), Put(T1, It(P2(c), <<49>>, 4)), Put(T1, It(P2(c), <<115>>, 5)),
      Q(P1, TRUE), Q(P1, FALSE), Q(P2(c), TRUE), Q(P2(c), FALSE), QR(P1, ">=", <<114>>), QR(P1, "<", <<122>>), QR(P2(c), ">", <<49>>),
-     WalkOp(Q(P1, TRUE), 1, FALSE), WalkOp(Q(P1, FALSE), 2, FALSE), WalkOp(Q(P2(c), TRUE), 1, FALSE), ScanOp("c1", T1, NoIndex, NoFilter, <<>>, <<>>) >>
+     WalkOp(Q(P1, TRUE), 1, FALSE), WalkOp(Q(P1, FALSE), 2, FALSE), WalkOp(Q(P2(c), TRUE), 1, FALSE), ScanOp("c1", T1, NoIndex, NoFilter, <<>>, <<>>),
+     EE(Q(P1, FALSE)), EE(Q(P2(c), TRUE)), EE(ScanOp("c1", T1, NoIndex, NoFilter, <<>>, <<>>)) >>
 \* the same through secondary indexes: index partitions "p" and "p<c>q" (and sort keys that extend one another), several
 \* items per index key; every observation reads each index forward and backward, whole and per partition
 GK == Cmp("=", Path("g"), Val(":g"))
@@ -28,6 +31,7 @@ IndexTrace(c) ==
      QI("gix", P1, TRUE), QI("gix", P2(c), TRUE), QI("gsx", P1, TRUE), QI("gsx", P1, FALSE), QI("gsx", P2(c), FALSE),
      ScanOp("c1", T1, IX("gix"), NoFilter, <<>>, <<>>), ScanOp("c1", T1, IX("gsx"), NoFilter, <<>>, <<>>),
      WalkOp(QI("gsx", P1, TRUE), 1, FALSE), WalkOp(QI("gix", P1, FALSE), 2, FALSE),
+     EE(QI("gsx", P1, TRUE)), EE(QI("gix", P2(c), FALSE)), EE(ScanOp("c1", T1, IX("gsx"), NoFilter, <<>>, <<>>)),
      Del(T1, [h |-> Str(<<97>>)], FALSE), QI("gix", P1, TRUE), QI("gsx", P2(c), TRUE) >>
 ASSUME \A c \in Seps : PrintT(ToJson([kind |-> "trace", ops |-> TableTrace(c)])) /\ PrintT(ToJson([kind |-> "trace", ops |-> IndexTrace(c)]))
 SetupDef == <<>>
